@@ -16,13 +16,14 @@ CONSTANTS
   MaxQueue,   \* capacity of the front->back channel = max_concurrent_requests      (mod.rs:384)
   BufCap,     \* capacity of a subscription stream = max_buffer_capacity_per_subscription
   SubIds,     \* subscription ids the peer may hand out
-  Dev,        \* subset of {"F3","F7","F8","F10","F13a","F13b","F13c"}
+  Dev,        \* subset of {"F3","F7","F8","F10","F13a","F13b","F13c","F17"}
   PeerMenu,   \* which kinds of texts the peer may send: subset of {"resp","notif","close","mnotif","array","garbage","foreign","dup"}
   MaxPeer,    \* bound on the number of texts the peer sends
   MaxPush,    \* bound on the payload counter of subscription notifications
   Faults,     \* subset of {"sendErr","recvErr","peerClose"} that the environment may inject (once)
   MaxArr,     \* longest array the peer sends
   ArrMenu,    \* element kinds allowed inside arrays: subset of {"resp","notif","close","mnotif"}
+  Abandon,    \* BOOLEAN: may the application give futures up before they return (timeouts, select!)
   RespShapes  \* which responses the peer forms: set of [ok : BOOLEAN, sub : SubIds \cup {-1}] (sub = subscription id carried by a success)
 
 None == [k |-> "none"]
@@ -117,6 +118,20 @@ FeObserve(h) ==
   /\ IF fe[h].res.k = "sub" THEN stream' = [stream EXCEPT ![h].rx = "held"] ELSE UNCHANGED stream
   /\ UNCHANGED <<idCtr, toBack, req, subIdx, bat, seen, unsubSent, inq, nPeer, nTok, pushed, fault>> /\ UNCHANGED shutVars
 
+(* The application gives a call / subscribe / batch future up before it has returned: it is dropped - by a timeout around  *)
+(* it, a `select!`, or the client's own request timeout (call_with_timeout, helpers.rs:285-293, drops the oneshot the same   *)
+(* way).  Nothing is told to the background tasks: the request stays registered with a waiter that is gone.  If the answer  *)
+(* was already waiting in the oneshot it is dropped with it; an accepted subscription dropped this way behaves like a       *)
+(* dropped stream (Drop for Subscription: try_send of the close request).                                                  *)
+FeAbandon(h) ==
+  /\ fe[h].st \in {"idle", "alloc", "sent", "ready"}
+  /\ fe' = [fe EXCEPT ![h].st = "abandoned"]
+  /\ IF fe[h].st = "ready" /\ fe[h].res.k = "sub"
+       THEN /\ toBack' = IF feOpen /\ Len(toBack) < MaxQueue THEN Append(toBack, [t |-> "subclosed", sub |-> fe[h].res.sub]) ELSE toBack
+            /\ stream' = [stream EXCEPT ![h].rx = "dropped", ![h].buf = <<>>]
+       ELSE UNCHANGED <<toBack, stream>>
+  /\ UNCHANGED <<idCtr, req, subIdx, bat, seen, unsubSent, inq, nPeer, nTok, pushed, fault>> /\ UNCHANGED shutVars
+
 (* Subscription::next - client/mod.rs:419-440 *)
 SubNext(h) ==
   /\ stream[h].rx = "held" /\ stream[h].buf # <<>>
@@ -159,7 +174,8 @@ SubDrop(h) ==
 -----------------------------------------------------------------------------
 (* ---------------------------------- send task: handle_frontend_messages, mod.rs:796-883 ---------------------------------- *)
 
-Complete(h, r) == [fe EXCEPT ![h] = [@ EXCEPT !.st = "ready", !.res = r]]
+Complete(h, r) == IF fe[h].st = "abandoned" THEN fe                      \* the waiter's oneshot is gone: the send fails silently
+                  ELSE [fe EXCEPT ![h] = [@ EXCEPT !.st = "ready", !.res = r]]
 
 (* manager.unsubscribe (manager.rs:281-302) + build_unsubscribe_message (helpers.rs:249-270): one critical section *)
 UnsubscribeEntry(s) ==   \* new `req` after initiating the unsubscribe of subscription id s
@@ -325,11 +341,24 @@ RtRecv ==
                                               /\ req' = Rrefused /\ UNCHANGED <<subIdx, bat, stream, toBack, rt, rtRes, fwd>>
                     ELSE IF Has(subIdx, m.sub) THEN /\ fe' = Complete(h, [k |-> "fail", why |-> "invalidSubId"])  \* duplicate subscription id
                                                     /\ req' = Rrefused /\ UNCHANGED <<subIdx, bat, stream, toBack, rt, rtRes, fwd>>
-                    ELSE /\ req' = Put(Del(req, m.id), m.id, [k |-> "sub", h |-> h, unsub |-> u, sub |-> m.sub])
-                         /\ subIdx' = Put(subIdx, m.sub, m.id)
-                         /\ stream' = [stream EXCEPT ![h] = [NoStream EXCEPT !.tx = TRUE, !.sub = m.sub]]
-                         /\ fe' = Complete(h, [k |-> "sub", id |-> m.id, tok |-> m.tok, sub |-> m.sub])
-                         /\ UNCHANGED <<bat, toBack, rt, rtRes, fwd>>
+                    ELSE IF fe[h].st # "abandoned"
+                      THEN /\ req' = Put(Del(req, m.id), m.id, [k |-> "sub", h |-> h, unsub |-> u, sub |-> m.sub])
+                           /\ subIdx' = Put(subIdx, m.sub, m.id)
+                           /\ stream' = [stream EXCEPT ![h] = [NoStream EXCEPT !.tx = TRUE, !.sub = m.sub]]
+                           /\ fe' = Complete(h, [k |-> "sub", id |-> m.id, tok |-> m.tok, sub |-> m.sub])
+                           /\ UNCHANGED <<bat, toBack, rt, rtRes, fwd>>
+                    \* the subscribe caller has given up (helpers.rs:218-232): the subscription is registered, the stream handed over
+                    \* fails, and the server must be told to stop.  Design: a close request goes the way every other one goes
+                    \* (forwarded to the send task, which unsubscribes).  Tree (F17): the read task builds the unsubscribe call
+                    \* itself and forwards it as a plain request - which the send task refuses, the id being reserved.
+                    ELSE IF "F17" \in Dev
+                      THEN /\ req' = Put(Put(Del(req, m.id), m.id, [k |-> "callNone"]), u, [k |-> "unsubPending", of |-> m.id])
+                           /\ UNCHANGED <<fe, subIdx, stream, bat, toBack, rt, rtRes, fwd>>
+                      ELSE /\ req' = Put(Del(req, m.id), m.id, [k |-> "sub", h |-> h, unsub |-> u, sub |-> m.sub])
+                           /\ subIdx' = Put(subIdx, m.sub, m.id)
+                           /\ stream' = [stream EXCEPT ![h] = [NoStream EXCEPT !.tx = TRUE, !.sub = m.sub, !.rx = "dropped"]]
+                           /\ fwd' = Append(fwd, m.sub)
+                           /\ UNCHANGED <<fe, bat, toBack, rt, rtRes>>
           [] m.t \in {"notif", "close", "mnotif"} ->
                LET r == ProcPush(m, req, subIdx, stream) IN
                /\ req' = r.req /\ subIdx' = r.subIdx /\ stream' = r.stream
@@ -415,7 +444,7 @@ StHandOver ==
 StEnd ==
   /\ st = "closing"
   /\ st' = "done"
-  /\ fe' = [h \in Ops |-> IF \E i \in 1..Len(toBack) : toBack[i].t \in {"call", "sub", "batch"} /\ toBack[i].h = h
+  /\ fe' = [h \in Ops |-> IF fe[h].st = "sent" /\ \E i \in 1..Len(toBack) : toBack[i].t \in {"call", "sub", "batch"} /\ toBack[i].h = h
                            THEN [fe[h] EXCEPT !.st = "ready", !.res = [k |-> "svcdisc"]] ELSE fe[h]]
   /\ toBack' = <<>>
   /\ UNCHANGED <<idCtr, req, subIdx, bat, stream, seen, unsubSent, inq, nPeer, nTok, pushed, fault, rt, wd, feOpen, closeCh, wdAlive, cause, stRes, rtRes, mgrAlive, closeSeen, fwd>>
@@ -439,6 +468,7 @@ ManagerDrop ==
 -----------------------------------------------------------------------------
 (* the next-state relation, grouped by who takes the step (Gen_Client.tla weighs the groups when it simulates) *)
 AppStart    == \E h \in Ops : FeAlloc(h)                                     \* the application starts an operation
+AppAbandon  == \E h \in Ops : fe[h].st # "idle" /\ FeAbandon(h)                \* ... or gives its future up
 FeNext      == \E h \in Ops : FeEnqueue(h) \/ FeObserve(h)                   \* its future makes progress
 StreamPoll  == \E h \in Subs : SubNext(h) \/ SubEnd(h)                       \* the application polls a stream
 StreamLeave == \E h \in Subs : SubUnsubStart(h) \/ SubDrop(h)                \* ... or gives it up
@@ -447,7 +477,7 @@ TaskNext    == StRecv \/ RtRecv \/ RtForward                                 \* 
 PeerNext    == \E m \in Texts : PeerSend(m)
 FaultNext   == \E f \in Faults : InjectFault(f)
 ShutNext    == StSendFails \/ RtRecvFails \/ StNoticeClosed \/ RtNoticeClosed \/ RtHandOver \/ StCloseFront \/ StHandOver \/ StEnd \/ WdRecv \/ ManagerDrop
-Next == AppStart \/ FeNext \/ StreamPoll \/ StreamLeave \/ StreamInt \/ TaskNext \/ PeerNext \/ FaultNext \/ ShutNext
+Next == AppStart \/ (Abandon /\ AppAbandon) \/ FeNext \/ StreamPoll \/ StreamLeave \/ StreamInt \/ TaskNext \/ PeerNext \/ FaultNext \/ ShutNext
 
 Spec == Init /\ [][Next]_vars
 FairSpec == Spec /\ WF_vars(StRecv) /\ WF_vars(RtRecv) /\ WF_vars(RtHandOver) /\ WF_vars(StCloseFront) /\ WF_vars(StHandOver)
@@ -468,10 +498,10 @@ Inv_StreamOrdered == \A h \in Subs : \A i \in 1..Len(stream[h].buf) :
                         /\ (i > 1 => stream[h].buf[i] > stream[h].buf[i - 1])
                         /\ stream[h].buf[i] > stream[h].got
 Inv_LaggedEnds == \A h \in Subs : stream[h].lagged /\ ~Has(subIdx, stream[h].sub) => ~stream[h].tx
-Inv_UnsubAtMostOnce == \A s \in SubIds : unsubSent[s] <= Cardinality({h \in Subs : fe[h].res.k = "sub" /\ fe[h].res.sub = s})
+Inv_UnsubAtMostOnce == \A s \in SubIds : unsubSent[s] <= Cardinality({h \in Subs : stream[h].sub = s})      \* one per accepted subscription
 Inv_EndsOnClose == \A h \in closeSeen : ~stream[h].tx
 (* C03 / C12 - no two operations in flight share a wire id (a batch reserves its whole range) *)
-IdSet(h) == IF fe[h].st = "idle" THEN {} ELSE IF Kind[h] = "batch" THEN Range(h) ELSE IF Kind[h] = "sub" THEN {fe[h].id, fe[h].id2} ELSE {fe[h].id}
+IdSet(h) == IF fe[h].id = NoId THEN {} ELSE IF Kind[h] = "batch" THEN Range(h) ELSE IF Kind[h] = "sub" THEN {fe[h].id, fe[h].id2} ELSE {fe[h].id}
 Inv_IdsUnique == \A h, g \in Ops : h # g => IdSet(h) \cap IdSet(g) = {}
 (* C09 - nobody ever reads the placeholder; everybody reads the same cause *)
 Inv_NoPlaceholder == \A h \in Ops : fe[h].res.k # "placeholder"
@@ -480,7 +510,10 @@ Inv_NoPanic == rt # "panicked"
 Inv_DisconnectedAfterFailure == (st = "done" /\ rt = "done") => ~feOpen
 (* C18 - quiescence: every op finished, queues empty, every subscription ended and its unsubscribe acknowledged *)
 StreamOver(h) == stream[h].sub = NoId \/ (~stream[h].tx /\ stream[h].rx \in {"ended", "dropped"})
-Quiescent == /\ \A h \in Ops : fe[h].st = "done"
+(* an operation given up counts as finished once the answer it no longer waits for has come in *)
+Answered(h) == /\ ~\E i \in DOMAIN req : req[i].k \in {"call", "psub"} /\ req[i].h = h
+               /\ ~\E b \in bat : b.h = h
+Quiescent == /\ \A h \in Ops : fe[h].st = "done" \/ (fe[h].st = "abandoned" /\ Answered(h))
              /\ toBack = <<>> /\ inq = <<>> /\ fwd = <<>> /\ mgrAlive /\ st = "run" /\ rt = "run"
              /\ \A h \in Subs : StreamOver(h)
              /\ \A x \in seen : x.k = "unsub" => ~Has(req, x.id) \/ TRUE
@@ -489,7 +522,7 @@ Inv_QuiescentEmpty == Quiescent /\ UnsubPending = {} => (DOMAIN req = {} /\ DOMA
 Inv_IndexConsistent == \A s \in DOMAIN subIdx : Has(req, subIdx[s]) /\ req[subIdx[s]].k = "sub" /\ req[subIdx[s]].sub = s
 
 (* liveness (C09): after the tasks are gone every operation that was started finishes *)
-Live_AllFinish == (st = "done" /\ rt \in {"done"}) ~> (\A h \in Ops : fe[h].st \in {"idle", "done"})
+Live_AllFinish == (st = "done" /\ rt \in {"done"}) ~> (\A h \in Ops : fe[h].st \in {"idle", "done", "abandoned"})
 
 (* a fault that a task notices leads to the client being disconnected with a recorded cause *)
 Live_FaultLeadsToDisconnect == (st = "failed" \/ rt = "failed") ~> (~feOpen /\ cause # None)
